@@ -146,6 +146,9 @@ class Tok:
                    d["text"], d.get("flags", []))
 
 
+_ADJ_RE = __import__("re").compile(r"\[[$<>][^\]]*\][^A-Za-z\[]*\[[$<>]")
+
+
 def print_token(root: Node, ring_style="digit"):
     """Write the tree.  Returns Tok (atoms in written order, bonds, descriptor attachments, text, flags)."""
     atoms, bonds, atts, flags = [], [], [], set()
@@ -224,6 +227,10 @@ def print_token(root: Node, ring_style="digit"):
 
     text = w(root, None, 1, False, False)
     assert not ring_open, "unclosed ring in written tree"
+    # textual adjacency: two descriptors with no atom written between them (whatever atoms they belong to)
+    flags.discard("bd_adjacent")
+    if _ADJ_RE.search(text):
+        flags.add("bd_adjacent")
     tok = Tok(atoms, bonds, atts, text, sorted(flags))
     return tok
 
